@@ -15,6 +15,9 @@ repaired molecule (atoms in order with every attribute, PTM flags, added atoms, 
 missing-atom log records).  The oracle states the property directly on the real result.  The size of the
 real match is compared with the Lean `mcisSize` (`mcis` line) for residues and blocks of <= 10 atoms, and
 with the size known by construction for pure renamings/permutations and pure deletions.
+Requested modifications: all shipped single-residue modifications of charmm/amber, the residue presented with
+the modification's atoms; the patched reference is compared by atom names with what block + modification
+declare (expected_patch, independent of _patch_modification) and with the Lean model shared with C19 (`patch`).
 """
 import copy
 import itertools
@@ -116,6 +119,58 @@ def val(v):
     return '<%s %s>' % (type(v).__name__, getattr(v, 'name', ''))
 
 
+def expected_patch(block, mods):
+    """What the modification DECLARES, stated independently of _patch_modification: the block plus the
+    modification's PTM atoms, each bond of the modification that touches a PTM atom present between the
+    namesakes.  Nodes are keyed by atom name.  Returns None when the modification does not apply cleanly
+    (anchor name absent / anchor bonds differ / name clash / residue name restriction)."""
+    g = nx.Graph()
+    for n in block.nodes:
+        d = block.nodes[n]
+        g.add_node(d['atomname'], atomname=d['atomname'], element=d['element'], ptm=False)
+    for u, v in block.edges:
+        g.add_edge(block.nodes[u]['atomname'], block.nodes[v]['atomname'])
+    for mod in mods:
+        nm = {n: mod.nodes[n].get('atomname') for n in mod.nodes}
+        new = [n for n in mod.nodes if mod.nodes[n].get('PTM_atom')]
+        anchors = [n for n in mod.nodes if not mod.nodes[n].get('PTM_atom')]
+        if not new or not anchors or None in nm.values() or len(set(nm.values())) != len(nm):
+            return None
+        if any(mod.nodes[n].get('resname') not in (None, block.name) for n in mod.nodes):
+            return None
+        if any(nm[n] not in g for n in anchors) or any(nm[n] in g for n in new):
+            return None
+        if any(mod.nodes[n].get('element') is None for n in new):
+            return None
+        for a, b in itertools.combinations(anchors, 2):
+            if mod.has_edge(a, b) != g.has_edge(nm[a], nm[b]):
+                return None
+        for n in new:
+            g.add_node(nm[n], atomname=nm[n], element=mod.nodes[n]['element'], ptm=True)
+        for u, v in mod.edges:
+            if u in new or v in new:
+                g.add_edge(nm[u], nm[v])
+    g.name = block.name
+    return g
+
+
+def applicable_mods(ffname):
+    """[(block name, modification name)] for every shipped single-residue modification and every amino-acid
+    block it applies to"""
+    ff, good = FFS[ffname]
+    out = []
+    for mname in sorted(ff.modifications):
+        mod = ff.modifications[mname]
+        for b in AA:
+            if b in good and expected_patch(good[b], [mod]) is not None:
+                out.append((b, mname))
+    return out
+
+
+AA = ['GLY', 'ALA', 'SER', 'VAL', 'LEU', 'ILE', 'THR', 'ASP', 'ASN', 'GLU', 'GLN', 'LYS', 'ARG', 'PHE', 'TYR',
+      'TRP', 'HSD', 'HSE', 'HSP', 'HIS', 'HID', 'HIE', 'HIP', 'MET', 'CYS', 'PRO', 'LYN', 'ASH', 'GLH']
+
+
 def present(spec):
     """spec (JSON-able dict) -> Molecule.  Residues: list of dicts
        {ff, block, names: keep|x|shuffle|swap, perm, missing, extra, mutate?, modify?, seed}; keys: dense|sparse|random"""
@@ -145,6 +200,11 @@ def present(spec):
     atomid = 0
     for ridx, rs in enumerate(spec['residues']):
         block = FFS[rs['ff']][1][rs['block']]
+        if rs.get('with_mod'):
+            # the residue is presented WITH the atoms of the requested modification(s)
+            block = expected_patch(block, [FFS[rs['ff']][0].modifications[m] for m in rs['modify']])
+            if block is None:
+                raise KeyError('modification %s does not apply to %s' % (rs['modify'], rs['block']))
         nodes = list(block.nodes)
         order = nodes[:]
         if rs.get('perm') == 'element':
@@ -172,6 +232,9 @@ def present(spec):
         if rs.get('missing_h'):
             hs = [n for n in nodes if block.nodes[n]['element'] == 'H' and n not in removed]
             removed |= set(rng.sample(hs, min(rs['missing_h'], len(hs))))
+        if rs.get('missing_ptm'):
+            ps = [n for n in nodes if block.nodes[n].get('ptm') and n not in removed]
+            removed |= set(rng.sample(ps, min(rs['missing_ptm'], len(ps))))
         key = {}
         resid = ridx + 1 + spec.get('resid0', 0)
         common = dict(resname=rs.get('resname', rs['block']), resid=resid, chain='A')
@@ -338,6 +401,9 @@ def oracle(mol_in, info, res):
         flagged = [k for k in atoms if out.nodes[k].get('PTM_atom')]
         names = [out.nodes[k].get('atomname') for k in recog]
         tag = 'residue %s (%s): ' % (resid, inf['spec']['block'])
+        sp = inf['spec']
+        if sp.get('modify') and not sp.get('mutate'):
+            errs.extend(tag + e for e in oracle_modified(mol_in, inf, rsnap, out, atoms))
         # (1) names unique among recognised atoms
         dup = sorted({n for n in names if names.count(n) > 1})
         if dup:
@@ -412,6 +478,78 @@ def oracle(mol_in, info, res):
         if len(set(m.values())) != len(m):
             errs.append(tag + 'match of make_reference is not injective')
     return errs
+
+
+def ref_by_name(ref):
+    names = sorted(ref.nodes[n]['atomname'] for n in ref.nodes)
+    edges = sorted(tuple(sorted((ref.nodes[u]['atomname'], ref.nodes[v]['atomname']))) for u, v in ref.edges)
+    return names, edges
+
+
+def oracle_modified(mol_in, inf, rsnap, out, atoms):
+    """requested modifications: the reference must be the block patched AS THE MODIFICATION DECLARES (every
+    added atom bonded to its anchor), and a residue presented with the modification's atoms comes back
+    complete, with exactly the modification's atoms marked and bonded as declared"""
+    errs = []
+    sp = inf['spec']
+    ff, good = FFS[sp['ff']]
+    want = expected_patch(good[sp['block']], [ff.modifications[m] for m in sp['modify'] if m != 'none'])
+    if want is None:
+        return errs
+    ref = rsnap['ref']
+    rn, re_ = ref_by_name(ref)
+    wn = sorted(want.nodes)
+    we = sorted(tuple(sorted(e)) for e in want.edges)
+    if rn != wn:
+        errs.append('reference for modification %s has atoms %s, declared %s'
+                    % (sp['modify'], sorted(set(rn) ^ set(wn)), 'differ'))
+    if re_ != we:
+        errs.append('reference for modification %s: bonds %s are declared by block+modification but %s'
+                    % (sp['modify'], sorted(set(we) - set(re_))[:4], 'absent from the patched reference'
+                       if set(we) - set(re_) else 'reference has extra bonds %s' % sorted(set(re_) - set(we))[:4]))
+    if not sp.get('with_mod') or inf['extras']:
+        return errs
+    # the presented residue is block + modification (possibly minus some atoms): afterwards it is all there
+    names = sorted(out.nodes[k].get('atomname') for k in atoms)
+    if names != wn:
+        errs.append('modified residue comes back with atoms %s instead of block+modification (differences: %s)'
+                    % (names[:40], sorted(set(names) ^ set(wn))))
+        return errs
+    byname = {out.nodes[k]['atomname']: k for k in atoms}
+    oe = sorted(tuple(sorted((out.nodes[u]['atomname'], out.nodes[v]['atomname'])))
+                for u, v in out.edges if u in byname.values() and v in byname.values())
+    if oe != we:
+        errs.append('modified residue: bonds missing %s / unexpected %s w.r.t. block+modification'
+                    % (sorted(set(we) - set(oe))[:4], sorted(set(oe) - set(we))[:4]))
+    flagged = sorted(n for n, k in byname.items() if out.nodes[k].get('PTM_atom'))
+    declared = sorted(n for n in want.nodes if want.nodes[n]['ptm'])
+    if flagged != declared:
+        errs.append('modified residue: atoms marked PTM_atom %s, the modification adds %s' % (flagged, declared))
+    added = [k for k in atoms if k not in mol_in.nodes]
+    if len(added) != len(inf['removed']):
+        errs.append('modified residue: %d atoms added, %d were missing' % (len(added), len(inf['removed'])))
+    for k in inf['key'].values():
+        if k not in out.nodes:
+            errs.append('modified residue: input atom %s vanished' % k)
+    return errs
+
+
+def patch_line(sp):
+    """protocol line for the Lean model of _patch_modification (shared with C19): unpatched block + modifications"""
+    ff, good = FFS[sp['ff']]
+    blk = good[sp['block']]
+    idx = {n: i for i, n in enumerate(blk.nodes)}
+    bn = [atom_enc(idx[n], blk.nodes[n]) for n in blk.nodes]
+    be = [[idx[u], idx[v]] for u, v in blk.edges]
+    mods = []
+    for m in sp['modify']:
+        if m == 'none':
+            continue
+        mod = ff.modifications[m]
+        mi = {n: i for i, n in enumerate(mod.nodes)}
+        mods.append([[atom_enc(mi[n], dict(mod.nodes[n], element=mod.nodes[n].get('element', 'X'))) for n in mod.nodes],
+                     [[mi[u], mi[v]] for u, v in mod.edges]])
+    return line('patch', bn, be, mods)
 
 
 def mcis_line(rsnap, snap):
@@ -556,6 +694,28 @@ def gen_specs(rng):
             if len(good[a]) > 20 and r['names'] != 'keep':
                 r['names'] = 'keep'
             specs.append(dict(residues=[r], seed=rng.randrange(10 ** 9), keys='sparse', include_graph=False))
+        # every shipped modification that applies to a single residue (termini, protonation states, ...), the
+        # residue presented WITH the modification's atoms: complete / scrambled / permuted / one PTM atom missing
+        appl = applicable_mods(ffname)
+        by_mod = {}
+        for b, mname in appl:
+            by_mod.setdefault(mname, []).append(b)
+        for mname, blocks in sorted(by_mod.items()):
+            restricted = len(blocks) <= 3
+            chosen = blocks if restricted else rng.sample(blocks, 3 if chk.thorough else 1)
+            for b in chosen:
+                n = len(good[b])
+                variants = [dict(names='keep'), dict(names='x', perm=True), dict(names='shuffle', perm=True),
+                            dict(names='keep', perm=True, missing_ptm=1), dict(names='x', perm=True, missing_ptm=1),
+                            dict(names='keep', missing_h=2, missing_ptm=1)]
+                if n > 18:
+                    variants = [v for v in variants if v.get('names') == 'keep'] + [dict(names='x')]
+                if not chk.thorough:
+                    variants = variants[:2] + rng.sample(variants[2:], 2) if restricted else rng.sample(variants, 2)
+                for v in variants:
+                    r = dict(ff=ffname, block=b, modify=[mname], with_mod=True, **v)
+                    specs.append(dict(residues=[r], seed=rng.randrange(10 ** 9), keys=rng.choice(['dense', 'sparse']),
+                                      include_graph=False))
         mods = sorted(m for m in ff.modifications if m in ('N-ter', 'C-ter', 'COOH-ter', 'NH2-ter', 'N-ter-NH2'))
         for _ in range(20 if chk.thorough else 4):
             if not mods:
@@ -587,6 +747,7 @@ all_specs += [('gen-%d' % i, s) for i, s in enumerate(gen_specs(rng))]
 
 pending = []   # (cid, spec, mol_in, info, res)
 timed_out_blocks = set()
+patch_cases = []  # (cid, protocol line, reference of the real code by atom names)
 lines = []
 t_budget = 780 if chk.thorough else 55
 for cid, spec in all_specs:
@@ -619,7 +780,8 @@ for cid, spec in all_specs:
         continue
     if res['status'].startswith('error'):
         kind = res['status'].split(':')[1]
-        expected = bool(r0.get('modify')) and kind == 'ValueError'   # modification does not fit: raised by design
+        # modification does not fit: raised by design (not for the ones the harness found applicable)
+        expected = bool(r0.get('modify')) and kind == 'ValueError' and not r0.get('with_mod')
         chk.count('error_' + kind)
         if expected:
             continue
@@ -637,6 +799,11 @@ for cid, spec in all_specs:
             chk.count('mcis_queries')
         else:
             qs.append(None)
+    if len(spec['residues']) == 1 and r0.get('modify') and not r0.get('mutate'):
+        rn, re_ = ref_by_name(snap['residues'][0]['ref'])
+        patch_cases.append((cid, patch_line(r0), enc([rn, [list(e) for e in re_]])))
+        chk.count('modification_%s' % '+'.join(r0['modify']))
+        chk.count('modified_residue_%s' % ('presented_with_mod_atoms' if r0.get('with_mod') else 'presented_bare'))
     n0 = len(info[0]['key']) + len(info[0]['extras'])
     chk.count('residues=%d' % len(info))
     chk.count('atoms_%s' % ('<=10' if n0 <= 10 else '<=20' if n0 <= 20 else '<=40' if n0 <= 40 else '>40'))
@@ -676,6 +843,21 @@ for cid, spec, mol_in, info, res, qs in pending:
         chk.notes.append('%s: %s' % (cid, explain(impl, model) if model is not None and model != impl else errs[0]))
         if os.environ.get('VERIF_DEBUG'):
             print(chk.notes[-1][:1500], flush=True)
+
+# ---- the patched reference against the Lean model of _patch_modification (shared with C19) ----------------
+pans = chk.drv.ask([p[1] for p in patch_cases]) if chk.lean_ok and patch_cases else [None] * len(patch_cases)
+for (cid, ln, impl), mo in zip(patch_cases, pans):
+    model = mo
+    if mo is not None and mo not in ('does-not-fit', 'bad-op', 'bad-line', 'driver-died'):
+        try:
+            nodes, edges = dec(mo)
+            nm = {k: n for k, n in nodes}
+            model = enc([sorted(nm.values()), sorted([sorted((nm[u], nm[v])) for u, v in edges])])
+        except Exception:
+            model = 'undecodable ' + clip(mo, 200)
+    chk.case('patch-' + cid, ln, impl, model, [], True)
+    if model is not None and model != impl:
+        chk.notes.append('patch-%s: reference of the code %s / model %s' % (cid, clip(str(dec(impl)), 600), clip(str(try_dec(model)), 600)))
 
 # ---- unknown residue: run_system deletes the molecule with a warning, or raises -------------------------
 from vermouth.system import System
